@@ -105,8 +105,9 @@ ec_backend_t liberasurecode_backend_instance_get_by_desc(int desc)
 int liberasurecode_backend_alloc_desc(void)
 {
     for (;;) {
-        if (++next_backend_desc <= 0)
-            next_backend_desc = 1;
+        if (next_backend_desc < 0 || next_backend_desc == INT_MAX)
+            next_backend_desc = 0;
+        ++next_backend_desc;
         if (!liberasurecode_backend_instance_get_by_desc(next_backend_desc))
             return next_backend_desc;
     }
